@@ -174,6 +174,12 @@ def _update_tree (force_dpid = None):
   tree = _calc_spanning_tree()
   log.debug("Spanning tree updated")
 
+  # Switches without any bidirectional link are not part of the tree, but
+  # their ports still need to be set (one-way links off, edge ports on)
+  for dpid in core.openflow.connections.dpids:
+    if dpid not in tree:
+      tree[dpid] = set()
+
   # Connections born before this time are old enough that a complete
   # discovery cycle should have completed (and, thus, all of their
   # links should have been discovered).
